@@ -904,7 +904,7 @@ def C04(ctx):
                         # RC8 shape: exit behaviour of a substate of M submits to M while a transition of an enclosing
                         # machine (which later exits M itself) is running the exit cascade
                         mach = st.state_owner[last_cb[1]][0]
-                        if mach != root and any(x.startswith('ex:%s/' % mach) for x in toks[k:]):
+                        if mach != root and (any(x.startswith('ex:%s/' % mach) for x in toks[k:]) or '!throw' in toks[k:]):
                             sig = 'submission_from_exit_behaviour_dispatched_inside_cascade'
                     fail('C04', 'event submitted from behaviour %s was dispatched inside the submitting call (interrupts the running step)'
                          % (toks[k - 1] if k else '?'), ctx, i, sig=sig)
@@ -996,7 +996,11 @@ def C04(ctx):
     for pl, tg in target.items():
         if pl not in seen and pl not in stored.get(tg, []) and pl not in maybe_silent:
             fail('C04', 'occurrence #%d sent to %s was neither dispatched nor is it pending (lost)' % (pl, tg), ctx, len(ctx.sut) - 1)
-    # per-occurrence agreement with the model while the dispatch order agrees
+    # per-occurrence agreement with the model while the dispatch order agrees (exception-free histories only: what happens
+    # to a completion transition aborted by an exception is not specified and differs between compile policies)
+    if any(t == '!throw' for op in ctx.sut for t in op):
+        classes['histories_with_exceptions'] += 1
+        return dict(nontrivial=nontrivial, classes=classes)
     try:
         mtoks = ctx.model
         mdisp = []
@@ -1063,6 +1067,7 @@ def C05(ctx):
     active = set()       # ledger of entered states
     last_by_type = {}    # type -> (stamp, payload) of the last re-offered occurrence
     exact = set()        # occurrences whose moment of deferral is known exactly
+    multi_deferred = set()   # occurrences pending while states of >= 2 regions deferred their type
     waited = {}
 
     def deferred_by_active(tname):
@@ -1104,7 +1109,8 @@ def C05(ctx):
                 if pl is not None and pl != cur:
                     cur = pl
                     if pl in done:
-                        fail('C05', 'occurrence #%d (%s) is dispatched a second time' % (pl, etype.get(pl)), ctx, i)
+                        sig = 'back_event_stored_once_per_deferring_region' if (dialect_of(ctx.cfg) == 'back' and pl in multi_deferred) else None
+                        fail('C05', 'occurrence #%d (%s) is dispatched a second time' % (pl, etype.get(pl)), ctx, i, sig=sig)
                     if pl not in etype:
                         fail('C05', 'behaviour saw an occurrence #%d that was never submitted' % pl, ctx, i)
                     tn = etype[pl]
@@ -1142,6 +1148,8 @@ def C05(ctx):
             offers_all = False
         for pl in list(pending):
             tn = etype[pl]
+            if sum(1 for s_ in active if tn in dfr.get(s_, ())) >= 2:
+                multi_deferred.add(pl)
             if pl in stamp or offers_all:
                 if not deferred_by_active(tn) and opk in ('P', 'X', 'S'):
                     sig = None
@@ -1159,7 +1167,12 @@ def C05(ctx):
             if t.startswith('pend='):
                 n = int(t[5:])
                 if n < len(pending) or (dialect_of(ctx.cfg) == 'back' and n != len(pending)):
-                    fail('C05', 'pending count %d but %d occurrences are retained (%s)' % (n, len(pending), pending), ctx, i)
+                    sig = None
+                    if dialect_of(ctx.cfg) == 'back' and n > len(pending):
+                        for pl in pending:
+                            if sum(1 for s_ in active if etype[pl] in dfr.get(s_, ())) >= 2:
+                                sig = 'back_event_stored_once_per_deferring_region'
+                    fail('C05', 'pending count %d but %d occurrences are retained (%s)' % (n, len(pending), pending), ctx, i, sig=sig)
         classes['steps'] += 1
     return dict(nontrivial=nontrivial, classes=classes)
 
@@ -1804,4 +1817,62 @@ def C16(ctx):
                      % (obj, cases.op_str(ctx.case[idx]), j, a[j] if j < len(a) else None, b[j] if j < len(b) else None), ctx, idx,
                      loaded_trace=' '.join(a), fresh_trace=' '.join(b))
     classes['cases'] += 1
+    return dict(nontrivial=nontrivial, classes=classes)
+
+
+
+# ---------------------------------------------------------------------------------------------- C18
+def C18(ctx):
+    """Event matching: a row is a candidate iff its trigger is the event's type, a public base of it, or a Kleene type;
+    candidates of the three kinds compete by table position only; behaviours of a Kleene row receive an any holding the
+    original event (dynamic type and value), behaviours of a base-class row receive the event through the base; payloads
+    (including a checksummed body of 1-200 bytes) arrive unmodified, also after queueing. Exact prediction by the model."""
+    st = ctx.static
+    spec = ctx.spec
+    classes = Counter()
+    nontrivial = []
+    kleene = {e['name'] for e in spec['events'] if e.get('kleene')}
+    in_sync = True
+    for i, c in enumerate(ctx.case):
+        if i >= len(ctx.sut):
+            break
+        toks = ctx.sut[i]
+        for t in toks:
+            if 'CORRUPT' in t:
+                fail('C18', 'payload body arrived modified: %s' % t, ctx, i)
+        if in_sync:
+            a = [t for t in toks if not t.startswith('ids{')]
+            b = [t for t in ctx.model[i] if not t.startswith('ids{')]
+            if a != b:
+                j = 0
+                while j < min(len(a), len(b)) and a[j] == b[j]:
+                    j += 1
+                fail('C18', 'candidate selection / event seen by the behaviours differs from the model at token %d: %s vs %s'
+                     % (j, a[j] if j < len(a) else None, b[j] if j < len(b) else None), ctx, i, ids_before=ids_before(ctx, i))
+        # non-triviality: the rows consulted in this op use >= 2 trigger kinds relative to the events dispatched
+        kinds = set()
+        for t in toks:
+            p = parse(t)
+            if p and p[0] in ('g', 'a'):
+                o = st.atom_owner.get(p[1]) if p[0] == 'g' else st.action_owner.get(p[1])
+                if not o:
+                    continue
+                row = [r for (nm, ri, kd, r, key) in st.rows if key == o[2]]
+                if not row or row[0]['ev'] is None:
+                    continue
+                trig = row[0]['ev']
+                d = p[3]
+                if trig in kleene:
+                    kinds.add('kleene')
+                elif d.startswith(trig + '#'):
+                    # exact or base: base if the top-level event of this op has another (derived) type
+                    evn = spec['events'][c['ev']]['name'] if c['op'] in ('P', 'Q') and 'ev' in c else None
+                    kinds.add('base' if (evn and evn != trig and trig in S.event_bases(spec, evn)) else 'exact')
+        if len(kinds) >= 2:
+            nontrivial.append((spec['id'], ids_before(ctx, i), c.get('ev'), tuple(sorted(kinds)), tuple(t.split('/')[0] for t in toks if t[0] in 'ga')))
+            classes['kinds_' + '+'.join(sorted(kinds))] += 1
+        if in_sync and not sync_active(ctx, i, Counter()):
+            in_sync = False
+            classes['diverged_elsewhere'] += 1
+        classes['steps'] += 1
     return dict(nontrivial=nontrivial, classes=classes)
